@@ -20,6 +20,9 @@ Str3(mn, mx, re) == [C0("String", FALSE) EXCEPT !.mn = mn, !.mx = mx, !.re = re]
 Mapped(t, vals, fast) == [C0(t, fast) EXCEPT !.vals = vals]
 VTup(ms) == [C0("VTuple", FALSE) EXCEPT !.ms = ms]
 InstN(k, an) == [C0("Instance", TRUE) EXCEPT !.k = k, !.an = an, !.nm = TRUE]
+\* Instance(K, allow_none = ~an)(allow_none = an): the None policy given when the definition is CLONED (re marks it)
+InstCl(k, an) == [C0("Instance", TRUE) EXCEPT !.k = k, !.an = an, !.re = TRUE]
+InstAdCl(k, an) == [C0("InstAd", TRUE) EXCEPT !.k = k, !.an = an, !.mn = 1, !.re = TRUE]
 Uni(ms, fast) == [C0("Union", fast) EXCEPT !.ms = ms]       \* fast: Either(...) (TraitCompound); not fast: Union(...)
 \* legacy Trait(...) forms: Trait(type) / Trait(constant) / Trait(class) / Trait(None, class) / Trait(d, function) /
 \* Trait(d, c1, c2, ...) / Trait(d, {map}) and the compound Trait(d, item, item, ...)
@@ -76,6 +79,8 @@ Cfgs == SimpleCfgs
         \cup {Mapped(t, vs, FALSE) : t \in {"PrefixMap", "PrefixList"}, vs \in {{"s_aaa", "s_abc"}, {"s_abc", "s_5"}, {"s_a", "s_aaa"}}}
         \cup {VTup(<<S("CInt"), S("CInt")>>), VTup(<<S("Int"), S("Float")>>)}
         \cup {InstN("A", an) : an \in BOOLEAN}
+        \cup {InstCl(k, an) : k \in {"A", "B"}, an \in BOOLEAN} \cup {InstAdCl("A", an) : an \in BOOLEAN}
+        \cup {Uni(<<InstCl("A", FALSE), S("Int")>>, TRUE), Tup(<<InstCl("A", FALSE), S("Str")>>, TRUE)}
         \cup {Uni(<<S("Int"), InstN("A", FALSE)>>, TRUE), Uni(<<InstN("B", FALSE), S("Str")>>, TRUE),
               Uni(<<Mapped("Map", {"s_a", "s_abc"}, TRUE), S("Float")>>, TRUE)}
         \cup LegacyCfgs
